@@ -17,6 +17,7 @@ from .exceptions import RangeUnsatisfiable
 
 
 image_map_pattern = re.compile('^[0-9]+,[0-9]+$')
+byte_range_pattern = re.compile(r'^\s*(?:[0-9]+\s*-\s*[0-9]*|-\s*[0-9]+)\s*$', re.ASCII)
 
 
 def is_unix_socket(path):
@@ -100,12 +101,19 @@ def get_ranges(headervalue, content_length):
         return None
 
     result = []
-    _bytesunit, byteranges = headervalue.split('=', 1)
+    bytesunit, _, byteranges = headervalue.partition('=')
+    if bytesunit.strip().lower() != 'bytes' or not all(byte_range_pattern.match(r) for r in byteranges.split(',')):
+        # rfc 7233 sec 3.1: a Range header with a unit we do not understand, or
+        # one that is not a valid byte-range-set, is ignored (full entity, 200).
+        return None
     for brange in byteranges.split(','):
         start, stop = (x.strip() for x in brange.split('-', 1))
         if start:
             if not stop:
                 stop = content_length - 1
+            elif int(stop) < int(start):
+                # syntactically invalid wherever it starts: ignore the header (see below)
+                return None
             start, stop = list(map(int, (start, stop)))
             if start >= content_length:
                 # From rfc 2616 sec 14.16:
